@@ -259,7 +259,7 @@ def check_correspondence(ctx, c, case, obs, rep):
         return False
     if obs['outcome'] == 'done':
         if not rep['terminal'] or rep['running'] or not model_result_matches(c, obs, rep['result']) or \
-                (rep['aliveAtReturn'] or []) != sorted(obs['alive_at_return'] or []):
+                sorted(rep['aliveAtReturn'] or []) != sorted(obs['alive_at_return'] or []):
             ctx.corr_break('c03.replay(final)', case,
                            {'terminal': rep['terminal'], 'running': rep['running'], 'result': rep['result'],
                             'aliveAtReturn': rep['aliveAtReturn']},
